@@ -34,7 +34,8 @@ Proof.
     inv_bind_as H u t1 E1 K1. apply ret_ok in K1 as [<- _]. simpl. now rewrite app_nil_r.
   - cbn [eval_item] in H. inv_bind_as H inner t1 E1 K1. inv_bind_as K1 c t2 E2 K2.
     destruct c; apply ret_ok in K2 as [<- _]; simpl; now rewrite app_nil_r.
-  - cbn [eval_item] in H. inv_bind_as H k t1 E1 K1. inv_bind_as K1 fr1 t2 E2 K2. inv_bind_as K2 u t3 E3 K3.
+  - cbn [eval_item] in H. inv_bind_as H k t1 E1 K1. inv_bind_as K1 fr1 t2 E2 K2. inv_bind_as K2 uc tc Ec Kc.
+    apply chk_ok in Ec as [-> _]. inv_bind_as Kc u t3 E3 K3.
     apply ret_ok in K3 as [<- _]. fold (body_go t genes (Some k)) in E2.
     clear E1 E3. revert fr t1 fr1 t2 E2. cbn [item_props]. induction IH as [|x r Hx Hr IHr]; intros fr t1 fr1 t2 E2.
     + apply ret_ok in E2 as [<- _]. simpl. now rewrite app_nil_r.
@@ -232,7 +233,10 @@ Proof.
     destruct (IH2 HIH2 Hwf2 HX fr1 s2 d2 D2 Hd2 Hcl1 (nodup_app_r' _ _ Hnd) Hfr2') as (ys2 & fr' & s' & d' & E & Hk & R & Lv & D' & Hd' & O' & Du' & U').
     exists (ys1 ++ ys2), fr', s', d'. split; [|split; [|split; [|split; [|split; [|split; [|split; [|split]]]]]]].
     + rewrite body_go_cons. cbn [eval_item]. unfold bind at 1. unfold ret at 1.
-      fold (body_go t genes (Some k)). unfold bind at 1. rewrite E1. unfold bind at 1. rewrite E2. exact E.
+      fold (body_go t genes (Some k)). unfold bind at 1. rewrite E1.
+      assert (Hgrow : Nat.eqb (List.length (members_of k (f_kids fr1))) (List.length (members_of k (f_kids fr))) = false).
+      { rewrite K1, members_of_app, members_of_flag, app_length. apply Nat.eqb_neq. destruct ys1; [contradiction|simpl; lia]. }
+      unfold bind at 1. rewrite Hgrow. unfold ret at 1. unfold bind at 1. rewrite E2. exact E.
     + rewrite Hk, K1, map_app, <- app_assoc. reflexivity.
     + apply Forall2_app; auto.
     + rewrite map_app. congruence.
@@ -278,7 +282,9 @@ Proof.
   destruct (set_mrca_final k ys X p b s2 d2 Hys Hlv' HX Hd2 D2) as (s3 & E3 & O3 & Du3 & D3 & M3 & U3).
   exists ys, fr1, s3. split; [|split; [exact K2|split; [exact R2|split; [exact Lv2|split; [exact M3|split; [|split; [|exact D3]]]]]]].
   - cbn [eval_item]. unfold bind at 1. fold k. rewrite E1. fold (body_go t genes (Some k)).
-    unfold bind at 1. rewrite E2. unfold bind at 1. rewrite Hmem, E3. reflexivity.
+    unfold bind at 1. rewrite E2. unfold bind at 1. rewrite Hmem, (members_of_fresh k (f_kids fr) Hfl).
+    assert (Hnz : Nat.eqb (List.length ys) (List.length (@nil hog)) = false) by (destruct ys; [contradiction|reflexivity]).
+    rewrite Hnz. unfold ret at 1. unfold bind at 1. rewrite E3. reflexivity.
   - rewrite Du3. lia.
   - destruct X1 as (A1 & B1 & C1). repeat split; try lia. intros k' Hk'.
     rewrite U3 by (unfold k; lia). rewrite U2 by (unfold k in *; lia). apply C1. exact Hk'.
